@@ -1063,7 +1063,7 @@ fn main() {
     write_json(&args.out.join("stats.json"), &json!({
         "scenario": "c02", "seed": args.seed, "tier": args.tier, "histories": n_hist, "ops_per_history": n_ops,
         "evaluations": o.w.total, "distinct_nontrivial": o.distinct.len(),
-        "rule": "random histories on TA->a->{b->{c->e,d,l},d} in one in-process runtime: entitlement changes at every level (grow, shrink, partial, family-partial, nothing, regain, disjoint), syncs, key-roll steps, suspend/unsuspend, ROA changes, RFC 6492 list/issue(with request limits)/revoke by a harness-built child, republish/repo sync/ASPA; cases: one per stored command (real state before/after that command, published child certificates decoded after the last command of an API call), one per sync-driver call (parent class, child details, child class before/after), one per settle run; non-trivial = every case (a stored command, a sync call or a settle run); distinct = distinct (kind, command type, error flag, key states before, finding class) resp. (child key state, open request, suspended, error, commands stored) resp. (rounds, extra)",
+        "rule": "histories on TA->a->{b->{c->e,d,l},d->{f,g},g} in one in-process runtime; scripted in every history right after the set-up: a child entitled to everything its parent holds while the parent shrinks at the grandparent to a strict subset; under the two-class parent d the entitlement of f in one class taken away / synced / given back / synced / taken away again / synced (class names aligned in even, crossed in odd histories; the regained class has a fresh local name), the same for g which has the parent a first (its local class names never coincide with d's), in a quarter of the histories g then removes the parent d; then random: entitlement changes at every level (grow, shrink, partial, family-partial, nothing, regain, disjoint), syncs, key-roll steps, suspend/unsuspend, ROA changes, RFC 6492 list/issue(with request limits)/revoke by a harness-built child, republish/repo sync/ASPA; cases: one per stored command (real state before/after that command, published child certificates decoded after the last command of an API call), one per sync-driver call under a single-class parent (parent class, child details, child class before/after), one per given-up class (class and revocation requests of the stored event), one per settle run, one per parent/child pair at every settle and scripted checkpoint (whole parent, its publication, whole child); non-trivial = every case; distinct = distinct (kind, command type, error flag, key states before, finding class) resp. (child key state, open request, suspended, error, commands stored) resp. (rounds, extra) resp. (key state, local name differs from parent's) resp. (pair, number of child classes, stage)",
         "op_distribution": o.op_hist, "command_distribution": o.cmd_hist, "error_distribution": o.err_hist, "kind_distribution": o.kind_hist,
         "received_cert_distribution": o.shrink_hist, "settle_rounds_distribution": o.settle_rounds, "scripted_distribution": o.script_hist,
         "modes": {"limits": args.get_u64("limits", 0), "rollshrink": args.get_u64("rollshrink", 0), "stuck": args.get_u64("stuck", 0)},
